@@ -4,7 +4,7 @@
 # passes there (hooks off), runs the given checks (quick) against the scratch tree in an isolated output directory,
 # expecting a violation, and removes the worktree.
 patch="$(realpath "$1")"; shift
-cd /verif && . scripts/goenv.sh
+ROOT="$(cd "$(dirname "$0")/.." && pwd)"; cd "$ROOT" && . scripts/goenv.sh
 wt=$(mktemp -d /tmp/mut.XXXXXX)
 git -C /repo worktree add -q --detach "$wt/repo" HEAD || exit 2
 trap 'git -C /repo worktree remove --force "$wt/repo" >/dev/null 2>&1; rm -rf "$wt"' EXIT
